@@ -54,6 +54,9 @@ class Ctx:
     """per-path execution context"""
 
     def __init__(self, prefix=(), both=False):
+        import os as _os
+
+        both = both or bool(_os.environ.get("PYVC_BOTH"))
         self.prefix = list(prefix)
         self.taken = []
         self.pending = []
